@@ -21,7 +21,7 @@ Proof.
   - apply ok_AssignMove; auto. - apply ok_AssignView; auto. - apply ok_AssignRange; auto. - apply ok_AssignIlEmpty; auto.
   - apply ok_AssignFill; auto. - apply ok_AssignConv; auto. - apply ok_Swap; auto. - apply ok_Clear; auto.
   - apply ok_Reextent; auto. - apply ok_ReextentMove; auto. - apply ok_Reshape; auto. - apply ok_Write; auto.
-  - apply ok_Destroy; auto.
+  - apply ok_Destroy; auto. - apply ok_ViewAssign; auto.
 Qed.
 
 (* histories in the documented domain *)
